@@ -62,6 +62,9 @@ func c12IntPair(c *Ctx, v int64, size int64) {
 	// value must not be affected (the sweeps below are repeated at the end of the run)
 	scribble(handedA)
 	scribble(handedB)
+	// ... and the caller may keep them: later calls must not change what was handed out earlier
+	c.Hold("NewIntegerFromInt", args, handedA)
+	c.Hold("EncodeIntN", args, handedB)
 }
 
 func runC12(c *Ctx) {
@@ -397,6 +400,8 @@ func runC12(c *Ctx) {
 			out := cp(a)
 			scribble(a)
 			scribble(b)
+			c.Hold("ToI2PString", [][]byte{s}, a)
+			c.Hold("NewI2PString", [][]byte{s}, b)
 			return OK(out)
 		})
 	}
